@@ -277,7 +277,7 @@ func TestC21Concurrent(t *testing.T) {
 		"distinct = distinct (history, token) partitions; non-trivial = the partition has validations and state changes"
 	r.Assume("call/return stamps from one atomic counter bracket each call; porcupine decides linearizability per token id against the model accepted <=> not revoked (a failed Blacklist call promises nothing)")
 	r.Assume("token lifetimes (1 h) exceed the run; the server key is constant")
-	r.Assume("not built with -race and sized at quick 40 / thorough 2 000 histories x 60 calls because a validation costs an Argon2id derivation (unaffordable under the race detector: more than a minute each); the window in which a stale cache entry arises is a few microseconds behind that derivation, so stress is complemented by the directed probe that holds a request inside it")
+	r.Assume("not built with -race and sized at quick 16 / thorough 1 600 histories x 60 calls because a validation costs an Argon2id derivation (unaffordable under the race detector: more than a minute each); the window in which a stale cache entry arises is a few microseconds behind that derivation, so stress is complemented by the directed probe that holds a request inside it")
 
 	setKey(keyA)
 
@@ -313,6 +313,7 @@ func TestC21Concurrent(t *testing.T) {
 
 	// the directed probe for the one window stress does not reach (see c21_probe_test.go)
 	staleCacheProbe(r)
+	_ = r.Write()
 
 	if os.Getenv("VERIF_C21_ONLY_PROBE") != "" {
 		_ = r.Write()
@@ -320,11 +321,15 @@ func TestC21Concurrent(t *testing.T) {
 		return
 	}
 
-	n := vh.N(40, 2000)
+	n := vh.N(16, 1600)
 
 	for h := 0; h < n; h++ {
 		runPlan(t, r, genPlan(vh.Rand(fmt.Sprintf("c21-conc-%d", h)), h, 8, 60), toks)
 		r.Count("histories", 1)
+
+		if h%4 == 3 {
+			_ = r.Write() // a watchdog kill still leaves what was observed so far
+		}
 	}
 
 	if r.Counters["events.calls_recorded"] == 0 {
